@@ -126,6 +126,7 @@ def programs(rng, tier):
         nv = rng.randrange(0, 7)
         cl = "p" + "".join(rng.choice("-01-") for _ in range(rng.randrange(0, nv + 1)))
         P.add(["clause_valuations_clone", cl, str(nv), str(rng.randrange(0, (1 << nv) + 2))])
+        P.add(["clause_valuations_adapters", cl, str(nv), str(rng.randrange(0, (1 << nv) + 2))])
     for _ in range(40 if quick else 1500):
         nv = rng.choice([7, 8, 9, 10])
         cl = "p" + "".join(rng.choice("-01011") for _ in range(rng.randrange(0, nv + 1)))
@@ -222,6 +223,29 @@ def judge(st, V):
     V.count("op:" + op)
     if impl == "SKIP" or not operands_wf(call):
         V.skipped += 1
+        return
+    if op == "clause_valuations_adapters":
+        # count / last / nth(1) / size_hint of a partially consumed clause iterator, against the enumeration computed in Python
+        machinery_guard(st)
+        cl, nv, k = call[1], int(call[2]), int(call[3])
+        cells = cl[1:]
+        want = None
+        if len(cells) <= nv and nv <= 12:
+            free = [i for i in range(nv) if i >= len(cells) or cells[i] == "-"]
+            allv = []
+            for m in range(1 << len(free)):
+                v = [(cells[i] == "1") if i < len(cells) and cells[i] != "-" else False for i in range(nv)]
+                for j, x in enumerate(free):          # the first free variable is the least significant position of the counter
+                    v[x] = bool(m >> j & 1)
+                allv.append("v" + "".join("1" if c else "0" for c in v))
+            rest = allv[k:]
+            want = ["P", str(len(rest)), ["S", rest[-1]] if rest else "N", ["S", rest[1]] if len(rest) > 1 else "N", "T"]
+        if impl != model or (want is not None and impl != want):
+            V.violations.append(violation(PID, st, "count / last / nth / size_hint of a partially consumed clause iterator disagree with the enumeration",
+                                          oracle={"expected": sx_str(want) if want else None, "observed": sx_str(impl), "model": sx_str(model)},
+                                          confirmed=(want is not None and impl != want), relation="(count, last, nth(1), size_hint ok) exact"))
+        else:
+            V.nontrivial.add(key_of(call))
         return
     if op == "iter_after_end":
         # every iterator, once exhausted, keeps answering None; the counts are those of the enumerations above
